@@ -113,8 +113,9 @@ class MachineVariables(LogMixin):
 
         config = self.machine.config['machine_vars']
         for name, element in config.items():
+            # always validate to get the default of persist (also when the value was loaded from disk)
+            element = self.machine.config_validator.validate_config("machine_vars", copy.deepcopy(element))
             if name not in self.machine_vars:
-                element = self.machine.config_validator.validate_config("machine_vars", copy.deepcopy(element))
                 self.set_machine_var(name=name,
                                      value=Util.convert_to_type(element['initial_value'], element['value_type']))
             self.configure_machine_var(name=name, persist=element.get('persist', False))
